@@ -40,6 +40,20 @@ Section Circle.
     [add2 p2 (scale2 n h); sub2 p2 (scale2 n h)].
 
   (* Circle2::tangent_points_to *)
+  (* Circle2::intersection_interval: the stretch of this circle inside the other one.  Of the two intervals that start at the first
+     crossing point and end at the second (the signed angle between them, or its complement), the one containing the direction of
+     the other centre *)
+  Definition pick_interval (s a theta : num) : AngleInterval :=
+    let i0 := AngleInterval_new s a in
+    if AngleInterval_contains i0 theta then i0 else AngleInterval_new s (signed_compliment_2pi a).
+  Definition intersection_interval (c0 c1 : circ) : option AngleInterval :=
+    match intersections_with c0 c1 with
+    | [] => None
+    | [p] => Some (AngleInterval_new (angle_of_point c0 p) n0)
+    | p :: q :: _ =>
+        Some (pick_interval (angle_of_point c0 p) (signed_angle (sub2 p (cc c0)) (sub2 q (cc c0))) (angle_of_point c0 (cc c1)))
+    end.
+
   Definition tangent_points_to (c : circ) (p : V2) : option (V2 * V2) :=
     let d := dist2 (cc c) p in
     if d <=? cr c then None else
